@@ -24,7 +24,18 @@ META = {
             "between the two neighbouring samples; queries outside the time range return the first/last row. "
             "Purity cannot be stated about immutable Lean values: it is established on the real code on every run "
             "by snapshotting all input buffers (bytes, id, shape/strides) around each call, np.shares_memory between "
-            "outputs and inputs, and a second call on read-only inputs.",
+            "outputs and inputs, and a second call on read-only inputs. "
+            "Python-level types: the model is over numbers, the documented meaning of an argument does not depend on its "
+            "Python representation, so every op line can carry a `types` section (validated by both sides, ignored by the "
+            "model) that makes the harness pass the SAME numbers as python int/float, numpy float64/float32/int64/int32 "
+            "scalars, python lists vs arrays (Parameter nominal), integer-dtype arrays (ts.times, ts.data, target times, "
+            "parameter values), rank-1 data, int32 / list / bare-int mapping indices (TimeSeries.create), empty dict vs "
+            "None sensor_delays, int / numpy-bool predicted_data: any dtype/container coercion in the modifiers that "
+            "changes the numbers (e.g. a delay table that takes its dtype from an int default) breaks the correspondence. "
+            "The grouped = column-by-column clause is additionally decided on the real code against an independent "
+            "reference (harness indep_columnwise: own per-column delay table built from the call's numbers, one "
+            "TimeSeries.resample per one-column float64 series, exact comparison), not only against the tree's "
+            "_apply_resample_and_delay_columnwise, which shares _build_per_column_delays with the code under test.",
     "note": "The linear kernel is scipy.interpolate.interp1d (library code of the venv, modelled from scipy 1.18 "
             "_call_linear/_evaluate and tied by the correspondence); np.searchsorted is modelled by its contract on "
             "sorted arrays. resample(target_dt=...), non-linear interpolation kinds, SignalTransform.apply "
@@ -32,7 +43,10 @@ META = {
             "apply_time_window returns numpy views of its input (slicing) and every modifier passes `times` through "
             "unchanged: this sharing is recorded but not counted as a violation (nothing is written). One-sample "
             "series are accepted by TimeSeries but interp1d divides 0/0 on them: theorems assume >= 2 samples and the "
-            "oracle reports the NaN under its own key.",
+            "oracle reports the NaN under its own key. Type variety deliberately left out (behaviour not fixed by the "
+            "documentation): integer/float32 ts.data for bias/gain/delay/gains+biases (numpy keeps the data dtype: float "
+            "results are cast back or the in-place op raises), float32 time arrays (NEP 50 keeps float32 when a python "
+            "float delay is added), unsigned / bool / 0-d-array delays.",
 }
 
 THEOREMS = [
@@ -71,7 +85,7 @@ def unhex(t):
 
 # ------------------------------------------------------------------ generators
 def gen_times(rng, n):
-    style = rng.choice(("grid", "grid", "rand", "rand", "big", "tiny", "int"))
+    style = rng.choice(("grid", "grid", "rand", "rand", "big", "tiny", "int", "int"))
     if style == "grid":
         t = rng.randint(-40, 40) / 8.0
         out = []
@@ -189,6 +203,9 @@ def gen_newtimes(rng, s):
     if n == 0:
         return [0.0, 1.0], "any"
     span = (ts[-1] - ts[0]) if n >= 2 else 1.0
+    if abs(ts[0]) < 1e5 and abs(ts[-1]) < 1e5 and rng.random() < 0.12:      # whole numbers (can be passed as an integer array)
+        lo, hi = int(ts[0]) - 2, int(ts[-1]) + 2
+        return [float(x) for x in sorted({rng.randint(lo, hi) for _ in range(rng.randint(1, 6))})], "whole"
     k = rng.random()
     if k < 0.14:
         return list(ts), "original"
@@ -253,9 +270,98 @@ def gen_entries(rng, s, lo=0, hi=3):
     return " , ".join(ents)
 
 
+# ---- python-level representation tags (the `types` section; rules mirrored by lean/Drivers/C48.lean and the harness)
+INT_MAX = 2147483647.0
+DATA_I64_OPS = ("resample", "rdelay", "rdelaycol", "window", "dwindow")
+DATA_1D_OPS = ("resample", "window", "dwindow")
+TYPE_HIST = {}
+
+
+def is_integral(x):
+    return x == x and abs(x) != float("inf") and x == float(int(x)) and abs(x) <= INT_MAX
+
+
+def is_f32(x):
+    if x != x or abs(x) == float("inf"):
+        return False
+    try:
+        return struct.unpack("f", struct.pack("f", x))[0] == x
+    except OverflowError:
+        return False
+
+
+def pick_scalar_tag(rng, x):
+    if is_integral(x) and rng.random() < 0.6:
+        return rng.choice(("int", "int", "npi64", "npi32"))
+    c = ["float", "npf64"] + (["npf32"] if is_f32(x) else [])
+    return rng.choice(c)
+
+
+def pick_value_tag(rng, v):
+    integral = all(is_integral(x) for x in v)
+    if integral and rng.random() < 0.5:
+        return rng.choice(["ilist", "i64"] + (["int", "int"] if len(v) == 1 else []))
+    c = ["arr", "list"] + (["f32"] if all(is_f32(x) for x in v) else []) + (["float", "npf64"] if len(v) == 1 else [])
+    return rng.choice(c)
+
+
+def pick_array_tag(rng, xs, view=True):
+    if xs and all(is_integral(x) for x in xs) and rng.random() < 0.7:
+        return "i64"
+    return "view" if view and rng.random() < 0.25 else "f64"
+
+
+def entry_values(entries):
+    """the value lists of a gen_entries() string"""
+    return [[unhex(w) for w in e.split()[2:]] for e in entries.split(",")] if entries.strip() else []
+
+
+def gen_types(rng, op, s, **vals):
+    """The `types` section for one op line: how the harness hands the numbers of the line to the real code.  About a
+    third of the lines carry none (every argument in its default representation: float64 arrays, python floats)."""
+    whole = bool(s["times"]) and all(is_integral(x) for x in s["times"])      # integer dtypes possible: tag more often
+    if rng.random() < (0.15 if whole else 0.35):
+        TYPE_HIST["(none)"] = TYPE_HIST.get("(none)", 0) + 1
+        return ""
+    t = []
+    if op in DATA_1D_OPS and s["m"] == 1 and rng.random() < 0.4:
+        t.append(("data", "1d"))
+    elif op in DATA_I64_OPS and all(is_integral(x) for x in s["data"]) and rng.random() < 0.6:
+        t.append(("data", "i64"))
+    if s["times"] and all(is_integral(x) for x in s["times"]) and rng.random() < 0.7:
+        t.append(("tsd", "i64"))
+    if rng.random() < 0.5:
+        t.append(("idx", rng.choice(("i32", "list", "int"))))
+    for k in ("nt", "t2"):
+        if k in vals:
+            tag = pick_array_tag(rng, vals[k], view=(k == "nt"))
+            if tag != "f64":
+                t.append((k, tag))
+    if "v" in vals and rng.random() < 0.8:
+        t.append(("v", pick_value_tag(rng, vals["v"])))
+    for k in ("gv", "bv"):
+        if vals.get(k) and rng.random() < 0.8:
+            t.append((k, ",".join(pick_value_tag(rng, v) for v in vals[k])))
+    for k in ("dflt", "lo", "hi"):
+        if k in vals and rng.random() < 0.8:
+            t.append((k, pick_scalar_tag(rng, vals[k])))
+    if vals.get("sd") and rng.random() < 0.85:
+        t.append(("sd", ",".join(pick_scalar_tag(rng, d) for d in vals["sd"])))
+    if "sd" in vals and rng.random() < 0.3:
+        t.append(("sdc", "dict"))
+    if "pred" in vals and rng.random() < 0.4:
+        t.append(("pred", rng.choice(("int", "npbool"))))
+    if "dv" in vals and rng.random() < 0.7:
+        t.append(("dv", rng.choice(["arr", "list", "float", "npf64"] + (["f32"] if all(is_f32(x) for x in vals["dv"]) else []))))
+    for k, tag in t:
+        for x in tag.split(","):
+            TYPE_HIST["%s=%s" % (k, x)] = TYPE_HIST.get("%s=%s" % (k, x), 0) + 1
+    return " | types " + " ".join("%s=%s" % kt for kt in t) if t else ""
+
+
 def gen_lines(ctx, rng, count):
     lines, hist = [], {}
-    ops = ["resample"] * 4 + ["bias", "gain"] * 2 + ["delay"] * 4 + ["window", "window", "dwindow"] + ["rdelay"] * 4 + ["gb"] * 2
+    ops = ["resample"] * 4 + ["bias", "gain"] * 2 + ["delay"] * 4 + ["window", "window", "window", "dwindow"] + ["rdelay"] * 4 + ["gb"] * 2
 
     def add(l, tag):
         lines.append(l)
@@ -268,29 +374,34 @@ def gen_lines(ctx, rng, count):
         shape = "n=%s" % (s["n"] if s["n"] <= 2 else "3-9" if s["n"] <= 9 else "10+")
         if op == "resample":
             nt, kind = gen_newtimes(rng, s)
-            add("resample %s | %s" % (S, " ".join(hexf(x) for x in nt)), "resample:%s:%s" % (kind, shape))
+            add("resample %s | %s%s" % (S, " ".join(hexf(x) for x in nt), gen_types(rng, op, s, nt=nt)), "resample:%s:%s" % (kind, shape))
         elif op in ("bias", "gain"):
             name = pick_name(rng, s)
             k = len(dict(s["mapping"]).get(name, []))
-            add("%s %s | %s | %s" % (op, S, name, " ".join(hexf(v) for v in gen_values(rng, k))), "%s:%s" % (op, shape))
+            v = gen_values(rng, k)
+            add("%s %s | %s | %s%s" % (op, S, name, " ".join(hexf(x) for x in v), gen_types(rng, op, s, v=v)), "%s:%s" % (op, shape))
         elif op == "delay":
             name = pick_name(rng, s)
             d = gen_delay(rng, s)
             kind = "zero" if d == 0 else ("neg" if d < 0 else "pos") + (">span" if s["n"] >= 2 and abs(d) > s["times"][-1] - s["times"][0] else "")
-            add("delay %s | %s | %s" % (S, name, hexf(d)), "delay:%s:%s" % (kind, shape))
+            add("delay %s | %s | %s%s" % (S, name, hexf(d), gen_types(rng, op, s, v=[d])), "delay:%s:%s" % (kind, shape))
         elif op == "window":
             ts = s["times"] or [0.0]
             def pt():
                 r = rng.random()
-                if r < 0.4:
+                if r < 0.3:
                     return rng.choice(ts)
+                if r < 0.42:
+                    return rng.choice(ts) + rng.choice((-1, 1)) * rng.randint(1, 7) / 8.0    # just beside a sample
+                if r < 0.5:
+                    return float(rng.randint(int(ts[0]) - 2, int(ts[-1]) + 2))   # a whole number
                 if r < 0.8:
                     return rng.uniform(ts[0] - 1, ts[-1] + 1)
                 return rng.choice((ts[0] - 5, ts[-1] + 5))
             a, b = pt(), pt()
             if a > b and rng.random() < 0.8:
                 a, b = b, a
-            add("window %s | %s %s" % (S, hexf(a), hexf(b)), "window:%s" % shape)
+            add("window %s | %s %s%s" % (S, hexf(a), hexf(b), gen_types(rng, op, s, lo=a, hi=b)), "window:%s" % shape)
         elif op == "dwindow":
             s2 = gen_series(ctx, rng, allow_bad=False, nmin=1)
             if s["n"] >= 1 and rng.random() < 0.7:      # overlapping time bases, like predicted/measured
@@ -303,27 +414,44 @@ def gen_lines(ctx, rng, count):
             a, b = sorted((rng.randint(-8, 8) / 8.0, rng.randint(-8, 8) / 8.0))
             if rng.random() < 0.06:
                 a, b = b + 0.5, a
-            add("dwindow %s | %s | %s %s" % (S, " ".join(hexf(x) for x in t2), hexf(a), hexf(b)), "dwindow:%s" % shape)
+            add("dwindow %s | %s | %s %s%s" % (S, " ".join(hexf(x) for x in t2), hexf(a), hexf(b), gen_types(rng, op, s, t2=t2, lo=a, hi=b)),
+                "dwindow:%s" % shape)
         elif op == "rdelay":
             nt, kind = gen_newtimes(rng, s)
             pool = [gen_delay(rng, s) for _ in range(rng.randint(1, 3))] + [0.0]
             dflt = rng.choice(pool)
+            if rng.random() < 0.3:
+                # whole-number and fractional delays side by side (default vs per-sensor, either way round): the numbers an
+                # int-typed argument can carry next to ones it cannot -- container/dtype coercions show up here
+                whole, frac = float(rng.randint(-2, 2)), (2 * rng.randint(-12, 11) + 1) / 16.0
+                pool = [whole, frac] + ([gen_delay(rng, s)] if rng.random() < 0.4 else [])
+                dflt = whole if rng.random() < 0.6 else frac
             names = [nm for nm, _ in s["mapping"]]
             rng.shuffle(names)
             sd = [(nm, rng.choice(pool)) for nm in names[:rng.randint(0, len(names))]]
             if rng.random() < 0.03:
                 sd.append(("nosuch", 0.5))
             pred = rng.choice("01")
-            tail = "%s | %s | %s | %s | %s" % (S, " ".join(hexf(x) for x in nt), hexf(dflt),
-                                               " ".join("%s=%s" % (nm, hexf(d)) for nm, d in sd), pred)
+            tail = "%s | %s | %s | %s | %s%s" % (S, " ".join(hexf(x) for x in nt), hexf(dflt),
+                                                 " ".join("%s=%s" % (nm, hexf(d)) for nm, d in sd), pred,
+                                                 gen_types(rng, op, s, nt=nt, dflt=dflt, sd=[d for _, d in sd], pred=pred))
             ngroups = len({(-d if pred == "1" else d) for d in [dflt] + [d for _, d in sd]})
             add("rdelay " + tail, "rdelay:%s:%s:groups<=%d" % (kind, shape, ngroups))
             add("rdelaycol " + tail, "rdelaycol:%s" % shape)
         else:
             label = rng.choice(("predicted", "measured"))
-            add("gb %s | %s | %s | %s" % (S, label, gen_entries(rng, s), gen_entries(rng, s)), "gb:%s" % shape)
+            ge, be = gen_entries(rng, s), gen_entries(rng, s)
+            add("gb %s | %s | %s | %s%s" % (S, label, ge, be, gen_types(rng, op, s, gv=entry_values(ge), bv=entry_values(be))), "gb:%s" % shape)
     lines.append("frob 1 1 c ; 0000000000000000 ; 0000000000000000 ; s0:0 | 1")   # malformed op: both sides must reject
     lines.append("resample 1 1 c ; 0000000000000000 ; zz ; s0:0 | ")
+    # malformed / inconsistent `types` sections: both sides must reject (a tag must represent its value exactly)
+    one = "2 1 c ; %s %s ; %s %s ; s0:0" % (hexf(0.0), hexf(1.0), hexf(1.0), hexf(2.5))
+    rd = "rdelay %s | %s | %s | s0=%s | 1" % (one, hexf(0.5), hexf(0.5), hexf(0.1))
+    for bad in ("types dflt=int", "types sd=npf32", "types sd=float,float", "types dflt=float dflt=float", "types v=arr",
+                "types data=i64", "types dflt=complex", "types dflt", "types tsd=view"):
+        lines.append(rd + " | " + bad)
+    lines.append("bias %s | s0 | %s | types data=1d" % (one, hexf(1.0)))
+    lines.append("delay %s | s0 | %s | types v=int" % (one, hexf(0.5)))
     return lines, hist
 
 
@@ -347,8 +475,10 @@ def gen_apply_lines(ctx, rng, count):
             pat = "*" if rng.random() < 0.3 else rng.choice(sp["mapping"])[0]
             v = rng.uniform(-0.2, 0.2) * step
             dl.append("%s:d%d:%s:%s:%s" % (pat, k, hexf(v), hexf(v - abs(step) * 0.1), hexf(v + abs(step) * 0.1)))
-        lines.append("apply %s | %s | %s | %s | %s | %s" % (series_str(sp), series_str(sm), " , ".join(dl),
-                                                          gen_entries(rng, sp, 0, 2), gen_entries(rng, sp, 0, 2), rng.choice("01")))
+        ge, be = gen_entries(rng, sp, 0, 2), gen_entries(rng, sp, 0, 2)
+        ty = gen_types(rng, "apply", {"m": sp["m"], "data": [0.5], "times": [0.5]}, gv=entry_values(ge), bv=entry_values(be),
+                       **({"dv": [unhex(x.split(":")[2]) for x in dl]} if dl else {}))
+        lines.append("apply %s | %s | %s | %s | %s | %s%s" % (series_str(sp), series_str(sm), " , ".join(dl), ge, be, rng.choice("01"), ty))
     return lines
 
 
@@ -430,6 +560,12 @@ def oracle(line, facts):
             res.append(("c48:resample-at-original-times-not-identity", "ts.resample(ts.times).data != ts.data (%s)" % facts["self_id"]))
     if facts.get("colwise_equal") is False:
         res.append(("c48:grouped-ne-columnwise", "apply_resample_and_delay differs from _apply_resample_and_delay_columnwise"))
+    elif str(facts.get("indep_colwise") or "").startswith("ne"):
+        res.append(("c48:grouped-ne-columnwise", "apply_resample_and_delay differs from the independent column-by-column resampling "
+                    "(own per-column delay table from the call's arguments, one TimeSeries.resample per column): %s" % facts["indep_colwise"]))
+    elif str(facts.get("indep_colwise") or "").startswith("raised"):
+        res.append(("c48:grouped-raises-columnwise-ok", "apply_resample_and_delay %s on arguments for which the column-by-column "
+                    "resampling is well defined" % facts["indep_colwise"]))
     if facts.get("ref_equal") is False:
         res.append(("c48:gains-biases-ne-reference", "_apply_gains_biases differs from _apply_gains_biases_reference"))
     if not out.startswith("ok "):
@@ -536,6 +672,9 @@ def describe(line):
         d = {"op": line.split()[0], "shape": [n, m], "layout": secs[0].split(";")[0].split()[-1], "times": X,
              "data_rows": rows, "signal_mapping": dict(mp)}
         op = d["op"]
+        if secs[-1].split()[:1] == ["types"]:
+            d["python_types"] = dict(w.split("=") for w in secs[-1].split()[1:])
+            secs = secs[:-1]
         if op in ("bias", "gain", "delay"):
             d["sensor_name"] = secs[1]
             d["delay" if op == "delay" else "value"] = [unhex(w) for w in secs[2].split()]
@@ -596,17 +735,21 @@ def run(ctx):
     ctx.rule = ("op lines: a generated series (0..48 samples incl. 1 and 2, 1..8 columns, C/Fortran/strided-view layout, "
                 "exact-grid / random / large-offset / tiny-scale timestamps, unsorted and partial signal mappings, rare invalid "
                 "inputs for the error paths) and one modifier call (resample, bias, gain, delay incl. 0 / negative / larger "
-                "than the span, window, delayed window, grouped and column-wise resample-and-delay, gains+biases); a case is "
-                "distinct by its full line; non-trivial = at least 2 samples")
+                "than the span, whole-number next to fractional delays, window, delayed window, grouped and column-wise "
+                "resample-and-delay, gains+biases) plus, on about two thirds of the lines, a `types` section choosing the "
+                "Python-level representation of every argument among those that hold its value exactly (distribution in "
+                "python_type_tag_distribution); a case is distinct by its full line; non-trivial = at least 2 samples")
     ctx.lean_props(THEOREMS)
     drv = ctx.driver("drv_c48")
     hsrc = os.path.join(common.VERIF, "harness", "py", "c48_signal.py")
     impl = [PY, hsrc, common.REPO]
     impl_facts = impl + ["--facts"]
     thorough = ctx.tier == "thorough"
+    TYPE_HIST.clear()
     lines, hist = gen_lines(ctx, ctx.rng, 24000 if thorough else 1600)
     ctx.extra["op_distribution"] = dict(sorted(hist.items()))
     apply_lines = gen_apply_lines(ctx, ctx.rng, 3000 if thorough else 250)
+    ctx.extra["python_type_tag_distribution"] = dict(sorted(TYPE_HIST.items()))
 
     def directed(c):
         rng2 = __import__("random").Random(c.seed * 7919 + 48)
